@@ -270,7 +270,10 @@ func xrun(args []string) error {
 			}
 			c := w.Cfg
 			idx := c.Chunked && !c.SkipChunkIdx && !c.SkipRepChannels && !c.SkipRepSchemas
-			jobs = append(jobs, job{w.ID, p, idx, idx && !c.SkipAttIdx, idx && !c.SkipMdIdx, strings.HasPrefix(w.ID, "g2pbig") || len(jobs)%10 == 3})
+			// a file without any chunk index (unchunked, or chunk indexes skipped) is served by the seeking reader through its
+			// linear fallback: same messages, same three orders
+			noidx := !c.Chunked || c.SkipChunkIdx
+			jobs = append(jobs, job{w.ID, p, idx || noidx, idx && !c.SkipAttIdx, idx && !c.SkipMdIdx, strings.HasPrefix(w.ID, "g2pbig") || len(jobs)%10 == 3})
 			traces[w.ID] = tr
 		}
 		jb, _ := json.Marshal(jobs)
